@@ -51,13 +51,15 @@ def walk_trees(tree, prefix=()):
             yield from walk_trees(n["tree"], prefix + (k,))
 
 
-def place(rng, project, what):
+def place(rng, project, what, ns_forced=None):
     """Inserts one usage; returns a label of the placement kind."""
     cfg = project["cfg"]
     locales = gen.effective_locales(cfg)
     default = locales[0]
     nss = cfg.get("namespaces") or [None]
     ns = nss[-1] if rng.random() < 0.6 else pick(rng, nss)
+    if ns_forced is not None:
+        ns = ns_forced
     kind = pick(rng, ["default-top", "non-default-only", "deep-subkey", "behind-fk", "surplus-unreferenced", "surplus-referenced"])
     if len(locales) == 1 and kind in ("non-default-only", "surplus-unreferenced", "surplus-referenced"):
         kind = "default-top"
@@ -148,8 +150,17 @@ def run(tier, seed, replay=None):
     for i in range(n):
         p = projects.gen_valid_project(rng, cfg)
         lab = []
-        for what in rng.sample(["plural", "number", "currency", "date", "time", "datetime", "list"], pick(rng, [0, 1, 1, 1, 2])):
-            lab.append((what, place(rng, p, what)))
+        nss = p["cfg"].get("namespaces")
+        if nss and len(nss) >= 2 and rng.random() < 0.25:
+            # every family at once: four of them in the namespaces that sort first, the fifth only in the one that sorts last
+            fams = ["plural", "number", "currency", pick(rng, ["date", "time", "datetime"]), "list"]
+            rng.shuffle(fams)
+            order = sorted(nss)
+            for k, what in enumerate(fams):
+                lab.append((what, place(rng, p, what, ns_forced=order[-1] if k == 4 else pick(rng, order[:-1]))))
+        else:
+            for what in rng.sample(["plural", "number", "currency", "date", "time", "datetime", "list"], pick(rng, [0, 1, 1, 1, 2])):
+                lab.append((what, place(rng, p, what)))
         projs.append(p)
         labels.append(lab)
     dirs, _ = workload.materialise(projs, "c20", seed=seed)
